@@ -81,7 +81,7 @@ META = {
     'models': ['M1'],
 }
 
-SIGNATURES = {'calc-wild-dep-dropped': runlib.sig_calc_wild_dropped}
+SIGNATURES = {}     # calc-wild-dep-dropped was fixed upstream (bf53535)
 
 # generator knobs of this property: all edge kinds, every oracle feature
 KNOBS = {'p_dup_sel': 0.12, 'p_meta_names': 0.2, 'p_share_lists': 0.2, 'p_combo': 0.2, 'p_calc_then_fail': 0.2,
